@@ -517,3 +517,86 @@ pub fn never_blocks(op: &str, log: &[Call], nonblocking: &BTreeSet<i32>) -> Resu
 pub fn cstring(p: &str) -> CString {
     CString::new(p).unwrap()
 }
+
+// ------------------------------------------------------------------------------------------
+// definitive-hang watch
+// ------------------------------------------------------------------------------------------
+
+/// Watches the calling thread while it is inside the library. A wait that can only end through
+/// the harness - read(2), or ppoll with a NULL timeout - which is still in place `after` the
+/// start (sampled three times, 200 ms apart, the thread not having woken up in between) and for which `still_pointless()` holds (e.g. "the peer is
+/// silent", "the socket is writable") is a *definitive* hang, not slowness: `release` is then
+/// called (it makes the peer act so that the call comes back) and `finish()` reports it.
+pub struct HangWatch {
+    returned: std::sync::Arc<std::sync::atomic::AtomicBool>,
+    stuck: std::sync::Arc<std::sync::Mutex<Option<String>>>,
+    handle: Option<std::thread::JoinHandle<()>>,
+}
+
+/// "read(2)" / "ppoll without time limit" when the thread is parked in such a call
+pub fn untimed_wait_of(tid: i32) -> Option<&'static str> {
+    let sc = std::fs::read_to_string(format!("/proc/self/task/{tid}/syscall")).ok()?;
+    let f: Vec<&str> = sc.split_whitespace().collect();
+    match f.first().copied() {
+        Some("0") => Some("read(2)"),
+        // ppoll(fds, nfds, tmo_p, sigmask, sigsetsize)
+        Some("271") if f.get(3).copied() == Some("0x0") => Some("ppoll without a time limit"),
+        _ => None,
+    }
+}
+
+fn voluntary_switches(tid: i32) -> Option<u64> {
+    let st = std::fs::read_to_string(format!("/proc/self/task/{tid}/status")).ok()?;
+    st.lines().find_map(|l| l.strip_prefix("voluntary_ctxt_switches:")).and_then(|v| v.trim().parse().ok())
+}
+
+impl HangWatch {
+    pub fn start(after: std::time::Duration, still_pointless: impl Fn() -> bool + Send + 'static, release: impl FnOnce() + Send + 'static) -> HangWatch {
+        use std::sync::atomic::Ordering::SeqCst;
+        let tid = unsafe { libc::syscall(libc::SYS_gettid) } as i32;
+        let returned = std::sync::Arc::new(std::sync::atomic::AtomicBool::new(false));
+        let stuck = std::sync::Arc::new(std::sync::Mutex::new(None));
+        let (r2, s2) = (returned.clone(), stuck.clone());
+        let handle = std::thread::spawn(move || {
+            let deadline = std::time::Instant::now() + after;
+            while std::time::Instant::now() < deadline {
+                if r2.load(SeqCst) {
+                    return;
+                }
+                std::thread::sleep(std::time::Duration::from_millis(5));
+            }
+            let mut what = None;
+            let mut sleeps: Option<u64> = None;
+            for _ in 0..3 {
+                if r2.load(SeqCst) {
+                    return;
+                }
+                match untimed_wait_of(tid) {
+                    Some(w) if still_pointless() => what = Some(w),
+                    _ => return, // not (or no longer) in such a wait: leave it to the outer time limit
+                }
+                // ... and it is one and the same sleep: the thread did not wake up in between
+                let now = voluntary_switches(tid);
+                if now.is_none() || (sleeps.is_some() && sleeps != now) {
+                    return;
+                }
+                sleeps = now;
+                std::thread::sleep(std::time::Duration::from_millis(200));
+            }
+            if r2.load(SeqCst) {
+                return;
+            }
+            *s2.lock().unwrap() = what.map(|w| w.to_string());
+            release();
+        });
+        HangWatch { returned, stuck, handle: Some(handle) }
+    }
+    /// Call right after the library call returned. `Some(wait)` = it had to be released by the harness.
+    pub fn finish(mut self) -> Option<String> {
+        self.returned.store(true, std::sync::atomic::Ordering::SeqCst);
+        if let Some(h) = self.handle.take() {
+            let _ = h.join();
+        }
+        self.stuck.lock().unwrap().clone()
+    }
+}
